@@ -887,6 +887,8 @@ class Inliner:
                 for x in body:
                     if isinstance(x, ast.Assign) and all(isinstance(t, ast.Attribute) and isinstance(t.value, ast.Name) and t.value.id == init.args.args[0].arg for t in x.targets):
                         fields |= {t.attr for t in x.targets}
+                    elif isinstance(x, ast.Assign) and all(isinstance(t, ast.Name) for t in x.targets):
+                        pass        # a plain local of __init__
                     else:
                         ok = False
                 if ok and fields:
